@@ -12,7 +12,7 @@ TraceInit == Init /\ l = 1 /\ TLCSet(1, 1)
 
 Reset ==
     /\ hs' = <<>> /\ typeOf' = [i \in 1..MaxInst |-> ""] /\ ninst' = 0 /\ nops' = 0
-    /\ closed' = "" /\ last' = NoRes
+    /\ closed' = "" /\ pcancel' = FALSE /\ last' = NoRes
 
 BuildPost(e) ==
     IF "rejected" \in DOMAIN e /\ e.rejected
@@ -24,6 +24,7 @@ TraceStep ==
     /\ l' = l + 1
     /\ LET e == Trace[l] IN
        CASE e.op = "reset" -> Reset
+         [] e.op = "PCancel" -> PCancel
          [] e.op = "AddFirst" -> AddFirst(e.refs) /\ BuildPost(e)
          [] e.op = "AddLast" -> AddLast(e.refs) /\ BuildPost(e)
          [] e.op = "AddHandler" -> AddHandler(e.pos, e.refs) /\ BuildPost(e)
